@@ -114,4 +114,3 @@ func VerifPoolCensus() (writers, readers int) {
 	}
 	return 0, 0
 }
-
